@@ -84,6 +84,10 @@ cEdits == %s
     for i in range(200 if t == "quick" else 3000):
         init = [["si", 34]] + rnd.choice([[], [["vc", 20]], [["vc", 33], ["app", 9]]]) + [["pad", rnd.choice([0, 1, 4, 7, 20, 100])] for _ in range(rnd.choice([0, 1, 1, 2]))]
         histories.append({"init": init, "edits": [rnd.choice(alphabet) for _ in range(rnd.randint(3, 8))]})
+    # every third history keeps the stream behind 7 / 1 / 130 foreign leading bytes
+    for i, h in enumerate(histories):
+        if i % 3 == 1:
+            h["lead"] = (7, 1, 130)[(i // 3) % 3]
     parts = [histories[i::8] for i in range(8)]
 
     def drive(ip):
